@@ -102,6 +102,26 @@ Fixpoint contains (sep s : bytes) : bool :=
   | None => match s with [] => false | _ :: s' => contains sep s' end
   end.
 
+(* every object in the value is a BTreeMap image: keys strictly increasing (the JSON case encoding could spell
+   something else; such a case is not an input of the property) *)
+Fixpoint sorted_deep (v : value) {struct v} : bool :=
+  match v with
+  | VObj m =>
+      obj_sorted m
+      && (fix go (l : list (bytes * value)) : bool :=
+            match l with
+            | [] => true
+            | (_, x) :: l' => sorted_deep x && go l'
+            end) m
+  | VArr a =>
+      (fix go (l : list value) : bool :=
+         match l with
+         | [] => true
+         | x :: l' => sorted_deep x && go l'
+         end) a
+  | _ => true
+  end.
+
 (* every key of the object and of the objects nested in it (not through arrays) is free of the separator, and
    no nested object is empty *)
 Fixpoint flat_domain_val (sep : bytes) (v : value) {struct v} : bool :=
@@ -116,11 +136,12 @@ Fixpoint flat_domain_val (sep : bytes) (v : value) {struct v} : bool :=
   | _ => true
   end.
 Definition flat_domain (sep : bytes) (m : obj) : bool :=
-  (fix go (l : list (bytes * value)) : bool :=
-     match l with
-     | [] => true
-     | (k, x) :: l' => negb (contains sep k) && flat_domain_val sep x && go l'
-     end) m.
+  sorted_deep (VObj m)
+  && (fix go (l : list (bytes * value)) : bool :=
+        match l with
+        | [] => true
+        | (k, x) :: l' => negb (contains sep k) && flat_domain_val sep x && go l'
+        end) m.
 
 (* the array is exactly what to_entries produces for an object with strictly increasing keys *)
 Fixpoint canonical_entries (prev : option bytes) (a : list value) : bool :=
@@ -178,7 +199,7 @@ Definition expected (f : fn) (g : fn) (x : value) (fwd : step) : option step :=
       | VBytes s, SOk _ => if starts_with mapped_prefix s && contains [46%N] s then Some (SOk x) else None
       | _, _ => None
       end
-  | FToEntries, FFromEntries => match x with VObj _ => Some (SOk x) | _ => None end
+  | FToEntries, FFromEntries => match x with VObj _ => if sorted_deep x then Some (SOk x) else None | _ => None end
   | FFromEntries, FToEntries =>
       match x with VArr a => if canonical_entries None a then Some (SOk x) else None | _ => None end
   | FFlatten sep [], FUnflatten sep' r =>
